@@ -61,7 +61,8 @@ func vC18List(l []string) string {
 	return "[" + strings.Join(parts, "; ") + "]"
 }
 
-var vC18Labels = []string{"example", "notexample", "exampl", "com", "org", "net", "a", "b", "www", "ads", "x1", "sub", "tracker"}
+var vC18Labels = []string{"example", "notexample", "exampl", "com", "org", "net", "a", "b", "www", "ads", "x1", "sub", "tracker",
+	"zone", "quiz", "az", "z", "a[b", "q{r", "x`y", "fghijklmnopqrstuvwxyz"}
 
 func vC18Name(r *rand.Rand) string {
 	n := 1 + r.Intn(3)
@@ -81,9 +82,36 @@ func vC18Spell(r *rand.Rand, s string) string {
 	}
 	if r.Intn(3) == 0 {
 		b := []byte(s)
+		var letters []int
 		for i := range b {
-			if b[i] >= 'a' && b[i] <= 'z' && r.Intn(2) == 0 {
+			if b[i] >= 'a' && b[i] <= 'z' {
+				letters = append(letters, i)
+			}
+		}
+		switch mode := r.Intn(4); {
+		case len(letters) == 0:
+		case mode == 0: // exactly one capital, any letter of the alphabet
+			b[letters[r.Intn(len(letters))]] -= 32
+		case mode == 1: // only the boundary letters
+			hit := false
+			for _, i := range letters {
+				if b[i] == 'a' || b[i] == 'z' {
+					b[i] -= 32
+					hit = true
+				}
+			}
+			if !hit {
+				b[letters[r.Intn(len(letters))]] -= 32
+			}
+		case mode == 2:
+			for _, i := range letters {
 				b[i] -= 32
+			}
+		default:
+			for _, i := range letters {
+				if r.Intn(2) == 0 {
+					b[i] -= 32
+				}
 			}
 		}
 		s = string(b)
